@@ -598,7 +598,9 @@ fn gen_op_inner(rng: &mut Rng, prof: &Profile, ctx: &Ctx, gs: &mut GenState, run
             }
             1 => {
                 gs.phase = 2;
-                if rng.chance(75) { return if rng.chance(50) { Op::NextP } else { Op::NextN }; }
+                // what the engine and the Dart side ask before the launch start: the patch to boot, and (one time in five)
+                // the current patch, which at this moment must be the last good one
+                if rng.chance(75) { return match rng.below(5) { 0 => Op::CurN, 1 | 2 => Op::NextP, _ => Op::NextN }; }
             }
             2 => {
                 gs.phase = 3;
